@@ -4,6 +4,7 @@ import (
 	"crypto/sha256"
 	"encoding/hex"
 	"go/ast"
+	"go/token"
 	"os"
 	"path/filepath"
 	"sort"
@@ -26,6 +27,15 @@ func fileFuncs(rel string) []string {
 	}
 	out := []string{}
 	for _, d := range f.Decls {
+		if gd, isGen := d.(*ast.GenDecl); isGen {
+			// type, const and var declarations (struct fields and tags, constants, tables): digest of the declaration text
+			if gd.Tok == token.IMPORT {
+				continue
+			}
+			h := sha256.Sum256([]byte(srcNoComments(gd)))
+			out = append(out, "decl:"+genDeclNames(gd)+" "+hex.EncodeToString(h[:])[:24])
+			continue
+		}
 		fd, ok := d.(*ast.FuncDecl)
 		if !ok || fd.Body == nil {
 			continue
@@ -43,6 +53,58 @@ func fileFuncs(rel string) []string {
 		out = append(out, name+" "+hex.EncodeToString(h.Sum(nil))[:24])
 	}
 	return out
+}
+
+// srcNoComments: the text of a declaration without its doc and line comments (a comment edit is not a code edit)
+func srcNoComments(gd *ast.GenDecl) string {
+	type saved struct {
+		p **ast.CommentGroup
+		v *ast.CommentGroup
+	}
+	var undo []saved
+	drop := func(p **ast.CommentGroup) {
+		if *p != nil {
+			undo = append(undo, saved{p, *p})
+			*p = nil
+		}
+	}
+	ast.Inspect(gd, func(n ast.Node) bool {
+		switch x := n.(type) {
+		case *ast.GenDecl:
+			drop(&x.Doc)
+		case *ast.TypeSpec:
+			drop(&x.Doc)
+			drop(&x.Comment)
+		case *ast.ValueSpec:
+			drop(&x.Doc)
+			drop(&x.Comment)
+		case *ast.Field:
+			drop(&x.Doc)
+			drop(&x.Comment)
+		}
+		return true
+	})
+	out := src(gd)
+	for _, u := range undo {
+		*u.p = u.v
+	}
+	return out
+}
+
+// genDeclNames: the names a type / const / var declaration introduces, joined by ","
+func genDeclNames(gd *ast.GenDecl) string {
+	names := []string{}
+	for _, sp := range gd.Specs {
+		switch x := sp.(type) {
+		case *ast.TypeSpec:
+			names = append(names, x.Name.Name)
+		case *ast.ValueSpec:
+			for _, n := range x.Names {
+				names = append(names, n.Name)
+			}
+		}
+	}
+	return strings.Join(names, ",")
 }
 
 // dirFiles: the non-test Go files of a directory of the repository, sorted
@@ -63,6 +125,15 @@ func dirFiles(dir string) []string {
 	return out
 }
 
+// libModName: "pkg/zk/affg" -> "SrcLPkgZkAffg"
+func libModName(dir string) string {
+	out := "SrcL"
+	for _, part := range strings.Split(dir, "/") {
+		out += strings.ToUpper(part[:1]) + part[1:]
+	}
+	return out
+}
+
 func init() {
 	dirs := map[string]string{
 		"SrcCmpKeygen":     "protocols/cmp/keygen",
@@ -73,6 +144,19 @@ func init() {
 		"SrcFrostSign":     "protocols/frost/sign",
 		"SrcDoernerKeygen": "protocols/doerner/keygen",
 		"SrcDoernerSign":   "protocols/doerner/sign",
+	}
+	// the library packages: the same pins, one module per directory. A property lists the files its anchors name
+	// (bin/props.py reads them from properties.jsonl), so an edit of anchored code that the transcribed tables do not
+	// see still breaks an obligation of that property and widens its directed search.
+	for _, dir := range []string{
+		"internal/bip32", "internal/elgamal", "internal/mta", "internal/ot", "internal/params", "internal/round",
+		"internal/safecbor", "internal/types", "pkg/ecdsa", "pkg/hash", "pkg/math/arith", "pkg/math/curve",
+		"pkg/math/polynomial", "pkg/math/sample", "pkg/paillier", "pkg/party", "pkg/pedersen", "pkg/pool", "pkg/protocol",
+		"pkg/taproot", "pkg/zk", "pkg/zk/affg", "pkg/zk/affp", "pkg/zk/dec", "pkg/zk/elog", "pkg/zk/enc", "pkg/zk/encelg",
+		"pkg/zk/fac", "pkg/zk/log", "pkg/zk/logstar", "pkg/zk/mod", "pkg/zk/mul", "pkg/zk/mulstar", "pkg/zk/nth",
+		"pkg/zk/prm", "pkg/zk/sch", "protocols/cmp", "protocols/doerner", "protocols/frost",
+	} {
+		dirs[libModName(dir)] = dir
 	}
 	for mod, dir := range dirs {
 		mod, dir := mod, dir
